@@ -31,7 +31,7 @@ abbrev Bytes := List UInt8
 
 inductive Err
   | hashNeeded | notOnCurve | wrongSize | zero | rBig | sBig | short | hash | oracle
-  | nonCanonical | subgroup | infEnc | encoding | noSqrt | rRange | sRange
+  | nonCanonical | subgroup | infEnc | encoding | noSqrt | rRange | sRange | pkInfinity
 deriving DecidableEq, Repr
 
 def Err.str : Err → String
@@ -39,7 +39,7 @@ def Err.str : Err → String
   | .zero => "err:zero" | .rBig => "err:rbig" | .sBig => "err:sbig" | .short => "err:short" | .hash => "err:hash"
   | .oracle => "err:oracle-mismatch" | .nonCanonical => "err:noncanonical" | .subgroup => "err:subgroup"
   | .infEnc => "err:infenc" | .encoding => "err:encoding" | .noSqrt => "err:nosqrt" | .rRange => "err:rrange"
-  | .sRange => "err:srange"
+  | .sRange => "err:srange" | .pkInfinity => "err:pkinfinity"
 
 /-! ### hash interface -/
 
@@ -285,8 +285,16 @@ def pkParse (sm : Int → Pt Nat → Pt Nat) (buf : Bytes) : Except Err (Pt Nat)
         let Q := ofAffine x y
         if P.inSubgroup sm Q then .ok Q else .error .subgroup
 
+/-- `PublicKey.SetBytes`: the point decoder, then the key validation "not the point at infinity" (in the Go code since the
+`fix:` commit bef084c; `PrivateKey.SetBytes` calls the point decoder directly, see `skParse`) -/
+def pubParse (sm : Int → Pt Nat → Pt Nat) (buf : Bytes) : Except Err (Pt Nat) :=
+  match P.pkParse sm buf with
+  | .error e => .error e
+  | .ok none => .error .pkInfinity
+  | .ok Q => .ok Q
+
 /-- the consumed-length report the property demands: the size of the encoding -/
-def pkConsumed (sm : Int → Pt Nat → Pt Nat) (buf : Bytes) : Except Err Nat := (P.pkParse sm buf).map (fun _ => P.pkSize)
+def pkConsumed (sm : Int → Pt Nat → Pt Nat) (buf : Bytes) : Except Err Nat := (P.pubParse sm buf).map (fun _ => P.pkSize)
 
 /-- `PublicKey.Bytes` -/
 def pkBytes (Q : Pt Nat) : Bytes :=
